@@ -114,7 +114,7 @@ func init() {
 		QuickRuns: 24000, ThoroughRuns: 600000, QuickCapS: 50, ThoroughCapS: 900,
 		Rule: "one run = 1-4 documents (values of a string-bearing catalogue type, written by the independent writers in a drawn format) pushed through ONE parser/decoder and ONE unfolder (SetTarget per document, optional key cache) in an environment hostile to aliasing: chunk buffers scribbled after every Write, whole inputs scribbled after Parse/ParseReader/Next, small reused reader buffers, runtime.GC() at seeded event boundaries (GODEBUG=clobberfree=1), -race build with checkptr; 1 run in 5 instead folds a catalogue value into an encoder (a third with user-defined folders, the fold_user.go function-pointer conversion) with and without GC between events; evaluations = scenarios; distinct by (format, entry, target, documents, schedules, GC points); all are non-trivial (every buffer the library saw is destroyed before the targets are read); a third of the runs unfold every document into the SAME never-cleared target, an eighth repeat a member (duplicate keys), one entry point re-fills ONE caller buffer for every document; user-defined unfolders include one that keeps the string it is handed; bytes lent to the library must come back unchanged",
 		Components: map[string][]string{
-			"real": {"json/ubjson/cborl Parser and Decoder", "gotype.Unfolder", "gotype.Fold", "json/ubjson/cborl Visitor", "internal/unsafe conversions under checkptr"},
+			"real": {"json/ubjson/cborl Parser and Decoder", "gotype.Unfolder", "gotype.Fold", "json/ubjson/cborl Visitor", "internal/unsafe conversions under checkptr", "visitors.StringConvVisitor (stringConv scenario)"},
 			"stub": {"caller buffers (simkit.Feed / scribbled slices)", "io.Reader (simkit.Reader)", "GC trigger (tap between producer and consumer)"}},
 		Assumptions: []string{"oracles: deep copy taken right after unfolding vs. the target after all later activity; benign run (immutable input, whole buffer, fresh instances, no GC injection)", "checkptr and the race detector abort the worker on an invalid pointer conversion (attributed through the progress word)"},
 	}
